@@ -293,7 +293,15 @@ func vpRelayCase(r *vfRng, st *vfStats) vfCase {
 	wantNack := r.chance(60)
 	P := cfg.ProbeTimeout
 	at := time.Duration(1+r.n(600))*time.Millisecond + time.Duration(1+2*r.n(400))*time.Microsecond
-	mode := r.n(5) // 0 silent, 1 ack, 2 ack twice, 3 foreign ack only, 4 late ack and early foreign
+	mode := r.n(6) // 0 silent, 1 ack, 2 ack twice, 3 foreign ack only, 4 late ack and early foreign, 5 the relay's own ping cannot be sent
+	if mode == 5 {
+		tr.sendErr = func(to string, mt messageType) error {
+			if mt == pingMsg && to == "10.0.0.9:7946" {
+				return &net.OpError{Op: "write", Net: "udp", Err: fmt.Errorf("sendto: network is unreachable")}
+			}
+			return nil
+		}
+	}
 	var arrivals [][]int64
 	var localSeq uint32
 	acks, nacks, acksOK := 0, 0, 0
